@@ -14,6 +14,6 @@ PROP = {'shrink_rounds': 8, 'shrink_candidates': 48,
  'trusted': ['hooks in /repo (build tag verif)', 'deterministic lab: fake PacketConn, parked SecretSource/handlers'],
  'assumptions': ['listener read errors originate from Shutdown\'s Close', 'handlers return when released'],
  'shards': 16,
- 'facts': ['countedUnderLock', 'shutdownFlagUnderLock', 'activeAddBeforeGo'],
+ 'facts': ['countedUnderLock', 'shutdownFlagUnderLock', 'activeAddBeforeGo', 'serveFlagUnderLock'],
  'race': True,
  'retry': True}
